@@ -884,7 +884,7 @@ func (s *Script) appendValue(buf []byte, v any, prec byte) []byte {
 	case int64:
 		buf = append(buf, strconv.FormatInt(tv, 10)...)
 	case float64:
-		buf = append(buf, strconv.FormatFloat(tv, 'g', -1, 64)...)
+		buf = appendFloat(buf, tv)
 	case bool:
 		if tv {
 			buf = append(buf, "true"...)
